@@ -31,7 +31,7 @@ ASSUMPTIONS = [
     "oracle: the statement's rule evaluated over the harness' registry of created files",
     "neighbourhood radius r: year 366 d, month 31 d, day 1 d, hour 1 h (one sub-directory period as "
     "typhon documents it), semi-open [t-r, t+r) like find()",
-    "timestamps on whole seconds (resolution of the file names)",
+    "timestamps at the resolution of the file names: whole seconds, milliseconds for the millisecond style",
 ]
 MIN_NONTRIVIAL = {"quick": 150, "thorough": 2500}
 REQUIRED_COUNTERS = {"closest.calls": 400, "getitem.calls": 100, "closest.none_expected": 10}
@@ -52,7 +52,7 @@ def dist(f, t):
     return min(abs(f["t0"] - t), abs(f["t1"] - t))
 
 
-def gen_timestamps(rng, files, k):
+def gen_timestamps(rng, files, k, ms=False):
     pts = []
     for f in files:
         pts += [f["t0"], f["t1"]]
@@ -79,7 +79,9 @@ def gen_timestamps(rng, files, k):
             t = a + (b - a) / 2  # often a gap, possibly an exact tie
         else:
             t = rng.choice(pts) + D(seconds=rng.randint(-90000, 90000))
-        out.append(t.replace(microsecond=0))
+        out.append(t.replace(microsecond=0) if not ms else
+                   t.replace(microsecond=t.microsecond // 1000 * 1000) +
+                   D(milliseconds=rng.choice([0, 0, 1, -1, 250, -400])))
     return out
 
 
@@ -209,7 +211,7 @@ def gen_case(rng):
         names, periods = c01.gen_exclude(rng, {str(f["id"]): f for f in files})
         names_idx = [int(n) for n in names]
     stamps = []
-    ts = gen_timestamps(rng, files, rng.choice([8, 16]))
+    ts = gen_timestamps(rng, files, rng.choice([8, 16]), ms=layout.end_style == "fullms")
     for t in ts:
         filters = None
         if layout.with_sat and rng.random() < 0.4:
